@@ -309,7 +309,7 @@ static uint64_t run_call(const KV &c) {
         d.addi("reseed", ascon_random_reseed(&st));
         ascon_random_fetch(&st, f2.p, 33); d.add("f2", f2.bytes());
         {
-            static unsigned char seedmem[64];
+            static thread_local unsigned char seedmem[64];   // per thread: the workload also runs multi-threaded (C16)
             memset(seedmem, 0x21, sizeof seedmem);
             ascon_storage_t sg;
             memset(&sg, 0, sizeof sg);
